@@ -3,10 +3,34 @@ from props import convmeta as M
 
 ID = "C01"
 COQ_PROPS = "Props/C01.v"
-THEOREMS = ["C01_dev"]
+THEOREMS = ["C01_lossless", "C01_filtered", "C01_flip_order", "C01_lossless_refuted"]
 ALLOWED_AXIOMS = []
 TABLES = ["t_classes", "t_ext_tol", "t_stack", "t_filter"]
 RULE = M.LosslessPart.RULE
-TRUSTED_BASE = []
-ASSUMPTIONS = []
+TRUSTED_BASE = [
+    "nibabel DicomWrapper (slice_indicator, affine), nibabel Nifti1Image/header (best affine = float32 sform) and pydicom are "
+    "contracts: the sorter's view of every file (props/stacklib.abstract_file), the affine of each per-file extension, the axis "
+    "permutation of the voxel reordering (dcmstack.reorder_voxels on a twin stack) and the affine written into the extension are "
+    "read from the implementation and given to the model as inputs (the geometry half, coq/Conv/Geom*.v, C02/C17, is where they "
+    "are modelled); the extension CONTENT, its shape and slice_dim, the final file order and every lookup are model outputs "
+    "compared exactly",
+    "Python == on metadata values is structural equality: one value type per key (never 1 vs 1.0 vs True), no NaN",
+    "the theorems import the merge law C03 (Ext/ProofsMerge.v: merge_den, merge_total), the lookup law C08 "
+    "(Ext/ProofsLookup.v: get_meta_value) and the sorter's invariant (Stack/ProofsInv.v, ProofsC11.v)",
+]
+ASSUMPTIONS = [
+    "DOMAIN RESTRICTION (open finding N9, sig c01-slice-normal-tolerance): C01_lossless assumes the slice normals (row 2 of the "
+    "per-file extension affines) are pairwise np.allclose with default tolerances; add_dcm itself tolerates orientation "
+    "differences up to 5e-5, for which the conversion silently drops per-slice values (C01_lossless_refuted; stream orient_lo)",
+    "metadata filters depend on the key only (make_key_regex_filter, default_meta_filter, key lambdas); a filter that looks at "
+    "values is outside the model",
+    "the extracted dictionary is an input (extract.default_extractor is C15's); in the 'extract' stream the ground truth is "
+    "extract.default_extractor(ds) as the property says, in the 'hand' stream a hand-built dict passed to add_dcm(ds, meta)",
+    "modelled, not verified: key order inside the class dictionaries; the dcmmeta_reorient_transform field (not part of the "
+    "extension model's header; it is the transform of C17); heap aliasing (the deepcopy of the 3-D branch)",
+    "the statement is relative to the FINAL file order o_order of Stack.Model.to_nifti (list order follows data order): that the "
+    "voxels of the file at list index s + S*(t + T*v) sit at slice s / time t / component v of the output array is checked on "
+    "every case (each file is located in the real output array by its pixel values) and proved on the data side by C02",
+    "classic single-frame data sets, complete grids (every stream converts; refusal is C11's)",
+]
 PARTS = [M.LosslessPart]
